@@ -44,13 +44,56 @@ type c11Case struct {
 	// 1 = about 1.5 MiB of cache file, 2 = about 5 MiB, 3 = about 20 MiB; the round trip is checked on the history's
 	// keys and a sample of the bulk keys, the crash-point and corruption parts are left to the small caches
 	Bulk int `json:"bulk,omitempty"`
+	// Later: after the round trip one saved template is announced again with a changed definition — to the cache that
+	// was loaded from the file (a restarted collector) or to the cache that wrote it (a collector that saves more than
+	// once) — and that cache is saved over the file: loading it must give the new definition for that key and the
+	// saved ones for every other key
+	Later *c11Later `json:"later,omitempty"`
+}
+
+type c11Later struct {
+	Via  string `json:"via"`  // loaded | same
+	Kind string `json:"kind"` // scope | field | swap | fresh | none (nothing changes: the second save must still be complete)
+	Slot int    `json:"slot"`
+	A    int    `json:"a"`
+}
+
+// tweakTemplate derives the changed definition: one scope or ordinary field names another element of the same type and
+// length (everything else, counts included, stays), two fields change places, or a wholly different template.
+func tweakTemplate(tp *wire.Template, l *c11Later, proto string) (wire.Template, bool) {
+	out := wire.Template{ID: tp.ID, Options: tp.Options, Scope: append([]wire.Field{}, tp.Scope...), Fields: append([]wire.Field{}, tp.Fields...)}
+	kind := l.Kind
+	if kind == "scope" && len(out.Scope) == 0 {
+		kind = "field"
+	}
+	switch kind {
+	case "scope", "field":
+		return wire.RetouchTemplate(tp, kind == "scope", l.A)
+	case "swap":
+		for _, fs := range [][]wire.Field{out.Scope, out.Fields} {
+			for i := 0; i+1 < len(fs); i++ {
+				if fs[i] != fs[i+1] {
+					fs[i], fs[i+1] = fs[i+1], fs[i]
+					return out, true
+				}
+			}
+		}
+	case "fresh":
+		out.Options, out.Scope = false, nil
+		out.Fields = append([]wire.Field{}, probeTpl.Fields...)
+		if len(tp.Scope) == 0 && len(tp.Fields) == len(out.Fields) && tp.Fields[0] == out.Fields[0] && tp.Fields[1] == out.Fields[1] && tp.Fields[2] == out.Fields[2] {
+			return out, false
+		}
+		return out, true
+	}
+	return out, false
 }
 
 const c11Rule = "case = a template cache built by a generated announce/re-announce/data history (IPFIX or NetFlow v9, several exporters, plain/options/enterprise templates, optionally adversarial templates with no or zero-length fields from one more exporter) dumped to a file F (in a quarter of the cases on a file system other than the temporary directory's; to a fresh path, or over an existing longer file: the same cache re-indented, a document with trailing octets, a long unrelated document), " +
-	"+ up to 40 corruptions of F; (a) round trip: after GetCache(F) every saved (exporter,id) decodes data exactly as before (records and error text), unannounced pairs stay unknown, and saving the loaded cache again reproduces the file byte for byte; " +
+	"+ up to 40 corruptions of F; (a) round trip: after GetCache(F) every saved (exporter,id) decodes data exactly as before (records and error text), unannounced pairs stay unknown, and saving the loaded cache again reproduces the file byte for byte; (a') in half of the cases one saved template is then announced again with a changed definition (one scope or ordinary field names another element of the same type and length, two fields change places, a wholly different template, or nothing changes) to the loaded cache or to the cache that wrote the file, that cache is saved over the file, and loading it must give the new definition for that key and the saved one for every other key; " +
 	"(b) crash points: EVERY prefix F[:k] (all k when |F| <= 6 KiB, otherwise the first/last 1.5 KiB, 64 octets around every shard boundary and 600 sampled offsets) is loaded; " +
 	"(c) byte-level (flip, delete, insert, duplicate a range) and structure-level corruptions via a generic JSON tree (drop/null shards, null or wrongly typed Templates, extra shards, wrong/huge/negative/string ShardNo, " +
-	"null or garbage template entries, non-object documents, duplicate keys, deep nesting) plus absent/empty/directory paths; " +
+	"null or garbage template entries, entry keys that are empty / too short / odd / not hexadecimal / very long / in the wrong shard, non-object documents, duplicate keys, deep nesting) plus absent/empty/directory paths; " +
 	"oracle = loading never panics; the loaded cache is usable: announcing a template and decoding data works for 32 probe keys covering all 32 shards and agrees with the reference model; " +
 	"for prefixes and removal-only corruptions every saved key yields 'unknown' or exactly its saved template; " +
 	"non-trivial = some corrupted file still parses as JSON with a shape different from the saved one, or a prefix cuts inside a template; distinct by hash"
@@ -175,7 +218,7 @@ func checkNothingInvented(cache *flowCache, probes []savedProbe, mustHave bool) 
 // ---------------------------------------------------------------- corruptions
 
 var structKinds = []string{"drop-shard", "null-shard", "null-templates", "wrong-templates", "extra-shards", "shardno", "cache-wrong", "remove-entry",
-	"entry-garbage", "doc-wrong", "dup-key", "deep", "template-wrong-types", "empty-cache-array", "count-mismatch", "specifier-tweak"}
+	"entry-garbage", "doc-wrong", "dup-key", "deep", "template-wrong-types", "empty-cache-array", "count-mismatch", "specifier-tweak", "key-tweak", "key-tweak"}
 
 var removalOnly = map[string]bool{"drop-shard": true, "null-shard": true, "null-templates": true, "remove-entry": true, "empty-cache-array": true}
 
@@ -364,6 +407,36 @@ func applyMut(file []byte, m c11Mut) []byte {
 					}
 				}
 				break
+			}
+		}
+	case "key-tweak":
+		// the key of one saved entry (or of a new, empty entry) is not what the collector writes: empty, too short,
+		// odd, not hexadecimal, upper case, very long, the key of an entry that belongs to another shard
+		keys := []string{"", "0", "0a", "0a0", "zz", "0A0B0C0D012C", "0a0b0c0d", "0a0b0c0d01", strings.Repeat("ab", 600), " 0a0b0c0d012c", "0a0b0c0d012c\u0000", "-1", "12345", "0x0a0b0c0d012c", "ünï"}
+		nk := keys[m.B%len(keys)]
+		if i, tm := fullShard(); tm != nil && m.A%3 != 0 {
+			for k, ent := range tm {
+				delete(tm, k)
+				if m.A%3 == 1 {
+					tm[nk] = ent
+				} else if sh, ok := shards[(i+1)%len(shards)].(map[string]interface{}); ok {
+					// a well-formed key in a shard it does not hash to
+					if otm, ok := sh["Templates"].(map[string]interface{}); ok {
+						otm[k] = ent
+					} else {
+						sh["Templates"] = map[string]interface{}{k: ent}
+					}
+				}
+				break
+			}
+		} else if len(shards) > 0 {
+			if sh, ok := shards[pick()].(map[string]interface{}); ok {
+				ent := map[string]interface{}{"Template": map[string]interface{}{"TemplateID": 300, "FieldCount": 0, "ScopeFieldCount": 0}, "Timestamp": 1}
+				if otm, ok := sh["Templates"].(map[string]interface{}); ok {
+					otm[nk] = ent
+				} else {
+					sh["Templates"] = map[string]interface{}{nk: ent}
+				}
 			}
 		}
 	case "doc-wrong":
@@ -632,6 +705,65 @@ func runC11(c *c11Case) (v verdict, sig string, err error) {
 		return v, "unusable", fmt.Errorf("round trip: %v", e)
 	}
 
+	// (a') a second save after one more announcement
+	if c.Later != nil && len(probes) > 0 {
+		l := c.Later
+		target, tname := loaded, "the cache loaded from the file"
+		if l.Via == "same" {
+			target, tname = cache, "the cache that wrote the file"
+		} else if l.Via != "loaded" {
+			return v, "", fmt.Errorf("bad case: later.via")
+		}
+		// the usability probes above announced templates of their own to the loaded cache: a second save holds them too
+		pi := l.Slot % len(probes)
+		if l.Kind == "scope" {
+			for k := 0; k < len(probes); k++ {
+				if len(probes[(pi+k)%len(probes)].tpl.Scope) > 0 {
+					pi = (pi + k) % len(probes)
+					break
+				}
+			}
+		}
+		changed := false
+		var ntp wire.Template
+		if l.Kind != "none" {
+			ntp, changed = tweakTemplate(probes[pi].tpl, l, proto)
+		}
+		later := append([]savedProbe{}, probes...)
+		if changed {
+			kind := "tpl"
+			if ntp.Options {
+				kind = "opt"
+			}
+			am := wire.Msg{Proto: proto, Seq: 11, Sets: []wire.Set{{Kind: kind, Tpls: []wire.Template{ntp}}}}
+			res, perr := target.decodeFlow(wire.ExactIP(probes[pi].slot.Addr), am.Bytes())
+			if perr != nil {
+				return v, "panic", perr
+			}
+			if res.Nil || res.Err != nil {
+				return v, "later", fmt.Errorf("second save: re-announcing template %d of exporter %x with a changed definition is rejected: %v", ntp.ID, []byte(probes[pi].slot.Addr), res.Err)
+			}
+			fake := c04Case{Proto: proto, Slots: []c04Slot{probes[pi].slot}}
+			np := savedProbes(&fake, map[int]*wire.Template{0: &ntp})
+			later[pi] = np[0]
+			v.label(true, "second-save-after-a-"+l.Kind+"-redefinition")
+			v.label(len(probes[pi].tpl.Scope) > 0 && l.Kind == "scope", "second-save-after-a-scope-only-change")
+		}
+		v.label(true, "second-save-via-"+l.Via)
+		if derr := target.dump(file); derr != nil {
+			return v, "dump", fmt.Errorf("second save failed: %v", derr)
+		}
+		second, perr := safeLoad(proto, file)
+		if perr != nil {
+			return v, "panic", perr
+		}
+		if e := checkNothingInvented(second, later, true); e != nil {
+			return v, "second-save", fmt.Errorf("second save (%s, after one template was announced again with a changed definition: %v): what the file gives back: %v", tname, changed, e)
+		}
+		// put the first save back for the crash-point and corruption parts
+		os.WriteFile(file, saved, 0o644)
+	}
+
 	// (b) crash points: prefixes of the saved file
 	offsets := prefixOffsets(saved, c.PrefixSeed)
 	scratch := filepath.Join(dir, "cut.json")
@@ -783,6 +915,10 @@ func TestC11(t *testing.T) {
 			}
 		}
 		c.Muts = genC11Muts(t)
+		if rapid.Bool().Draw(t, "withlater") {
+			c.Later = &c11Later{Via: rapid.SampledFrom([]string{"loaded", "same"}).Draw(t, "latervia"), Kind: rapid.SampledFrom([]string{"scope", "scope", "field", "swap", "fresh", "none"}).Draw(t, "laterkind"),
+				Slot: rapid.IntRange(0, 63).Draw(t, "laterslot"), A: rapid.IntRange(0, 1023).Draw(t, "latera")}
+		}
 		v, sig, err := runC11(&c)
 		col.report(t, mustJSON(c), v, sig, err)
 	})
